@@ -73,3 +73,33 @@ Theorem C06_opmode_endian_select : forall t v,
     = Some (OpMode.store (norm t) v).
 Proof. exact OpModeProofs.endian_select. Qed.
 Print Assumptions C06_opmode_endian_select.
+
+(* ---------- why the BP_BIG_ENDIAN build can be observed on a little-endian host ---------- *)
+From BP Require Import CBeExact.
+
+(* On descriptors without extensible nodes whose signed fields are 8/16/32/64 bits wide (sign
+   fix-up skipped) or stored in one byte, the BE build executes no native multi-byte access:
+   its model does not depend on the host byte order at all.  Hence running the
+   -DBP_BIG_ENDIAN build on x86 on BIG-ENDIAN storage is an observation of (B,E) = (BE,BE), and
+   the check compares it with Spec.wire / store BE (class cboundary.be_exact; membership of every
+   executed schema is re-checked in Coq by CCase.bex_case). *)
+Theorem C06_be_build_host_independent : forall E1 E2 enc d,
+  dexact d = true -> forall x o, call_processor BE E1 enc d x o = call_processor BE E2 enc d x o.
+Proof. exact call_processor_be. Qed.
+Print Assumptions C06_be_build_host_independent.
+
+Theorem C06_be_encode_host_independent : forall E1 E2 t o,
+  dexact (render (norm t)) = true -> c_encode_ty BE E1 t o = c_encode_ty BE E2 t o.
+Proof. exact c_encode_be_host_indep. Qed.
+Print Assumptions C06_be_encode_host_independent.
+
+Theorem C06_be_decode_host_independent : forall E1 E2 t s,
+  dexact (render (norm t)) = true -> c_decode_ty BE E1 t s = c_decode_ty BE E2 t s.
+Proof. exact c_decode_be_host_indep. Qed.
+Print Assumptions C06_be_decode_host_independent.
+
+Example C06_be_exact_nonvacuous :
+  dexact (render (norm (TMsg false [(1, TArr false 100 (TUint 16)); (2, TArr false 6 (TAlias (TInt 5))); (3, TInt 32)]))) = true /\
+  dexact (render (norm (TMsg false [(1, TInt 13)]))) = false /\
+  dexact (render (norm (TMsg true [(1, TUint 3)]))) = false.
+Proof. vm_compute. repeat split; reflexivity. Qed.
